@@ -31,6 +31,12 @@
 (*                   indentation unit / heading flag                       *)
 (*   "CallerSlice"   the caller's extension list is sorted and compacted   *)
 (*                   in place                                              *)
+(*   "OptionOwnsCtx" the WithMassive option VALUE derives the pipeline's   *)
+(*                   cancelable context once; a call that fails cancels it *)
+(*                   for every later call given the same value             *)
+(* (option values and lists belong to the caller, who may hand the same    *)
+(* value to call after call: the harness does - one extension slice and    *)
+(* one WithMassive value per process)                                      *)
 (***************************************************************************)
 EXTENDS Naturals, Sequences, FiniteSets
 
@@ -54,6 +60,7 @@ Leaves(c) ==
   \cup (IF "SharedGrower" \in Dev /\ c.op \in {"mkdir", "verify"} /\ ~Has(c, "dry") THEN {<<"validating", BranchKey(c)>>} ELSE {})
   \cup (IF "PooledParser" \in Dev /\ c.fam = "md" THEN {<<"parser", IndentOf(c.doc)>>} ELSE {})
   \cup (IF "CallerSlice" \in Dev /\ Has(c, "extsDup") THEN {<<"slice">>} ELSE {})
+  \cup (IF "OptionOwnsCtx" \in Dev /\ Has(c, "massive") /\ c.fault \in {"w1", "w2", "rhalf"} THEN {<<"optctx">>} ELSE {})
 
 \* does something left behind change what this call does?
 Disturbs(rs, c) ==
@@ -61,6 +68,7 @@ Disturbs(rs, c) ==
   \/ \E r \in rs : r[1] = "validating" /\ r[2] = BranchKey(c) /\ c.doc = "slash" /\ c.op \in {"output", "walk"} /\ ~Has(c, "dry")
   \/ \E r \in rs : r[1] = "parser" /\ c.fam = "md" /\ r[2] # IndentOf(c.doc)
   \/ \E r \in rs : r[1] = "slice" /\ Has(c, "extsDup")
+  \/ \E r \in rs : r[1] = "optctx" /\ Has(c, "massive")
 
 Result(c, rs) == IF Disturbs(rs, c) THEN <<"disturbed", c, rs>> ELSE Alone(c)
 
